@@ -13,7 +13,7 @@ K = lambda name, file, fn: dict(name=name, target=("oxidize-pdf-core/src/" + fil
 
 PROPS = {
     "C01": dict(
-        verus=["tokenizer", "runlength", "gss", "xrefstream", "glyf"],
+        verus=["tokenizer", "runlength", "gss", "xrefstream", "glyf", "guards", "predictor", "pngrows"],
         kani=[K("c01_hex_digit_value", "parser/filters.rs", "hex_digit_value")],
         level_text="panic-freedom (index, slice range, overflow, division), termination and output bounds proved per listed function for all inputs; the whole-program 'never crashes' claim is NOT made",
         not_decided="the I/O shells (reader.rs, xref.rs parse/recovery, object_stream.rs, page_tree.rs), LZW dictionary growth, CCITT/JBIG2/DCT decoders, text extraction, allocation sizes, wall-clock bounds",
@@ -83,7 +83,7 @@ PROPS = {
         not_decided="CMap tokenizer/parser, bfrange array form, code-space rejection, ToUnicode builder round trip",
     ),
     "C07": dict(
-        verus=["runlength"],
+        verus=["runlength", "pngrows", "predictor"],
         kani=[K("c07_paeth_predictor_png_spec", "parser/filters.rs", "paeth_predictor")],
         not_decided="LZW, CCITT, Flate (dependency), ASCIIHex/ASCII85 (iterator adapters; outside Verus), PNG/TIFF predictors pending",
     ),
